@@ -330,9 +330,12 @@ func genTrees(c *genCtx) error {
 			}
 			o := sweepOpts{allBytes: c.thorough() && !base.edge, stop: false, rejectConts: conts}
 			if !c.thorough() {
+				// (the parse and handler sweeps try three members of every class and all 256 bytes; here one member)
 				o.rejectConts = conts[:1]
-				if base.edge && rng.Intn(8) != 0 {
-					return // the quick tier takes an eighth of the transitions (which ones depends on the seed)
+				o.onePerClass = true
+				if base.edge {
+					o.rejectConts = nil // every transition is taken, continued by the bytes the specification accepts;
+					o.viableOnly = true // rejected next bytes are tried from the state bases (and here in the thorough tier)
 				}
 			}
 			forSweepInputs(ss, mem, base, o, rng, func(in []byte, viable bool) {
